@@ -13,7 +13,7 @@ def is_start(ev):
     return ev.get("k") == "reset"
 
 
-def jobs(tier):
+def jobs(tier, pid="C07"):
     q = tier == "quick"
     base = {"NNames": NN, "NT": NT, "Record": "TRUE"}
 
@@ -22,6 +22,11 @@ def jobs(tier):
         c.update({"Depth": depth, "UseScopes": tla_set(scopes), "UseKinds": tla_set(kinds), "UseNames": tla_set(names),
                   "UseTypes": tla_set(types)})
         return (name, c)
+    if pid == "C02":
+        # what a declaration reports beyond its place in the scope: name, type and, for an alias, the aliasee it was declared
+        # with -- on first declarations and on redeclarations
+        return [job("kinds", 3 if q else 4, [2], ["var", "field", "bitfield", "typedecl", "alias", "ptemplate", "stemplate"]),
+                job("aliases", 4 if q else 5, [1, 2], ["alias", "typedecl"], names=(1, 2), types=(1, 2))]
     return [
         job("var-fun", 4 if q else 5, [1], ["var", "fundecl"]),
         job("kinds", 3 if q else 4, [2], ["var", "field", "bitfield", "typedecl", "alias", "ptemplate", "stemplate"],
@@ -46,7 +51,7 @@ def run(pid, tier, seed):
                                         ["ScInvariant"], ["AppendOnlyMC"], 4, 3000, "6g")
 
     with ThreadPoolExecutor(max_workers=6) as ex:
-        gf = [ex.submit(gen, j) for j in jobs(tier)]
+        gf = [ex.submit(gen, j) for j in jobs(tier, pid)]
         tf = ex.submit(vlib.validate_trace_resync, "IprScopesTrace", tp, ["ScInvariant"], pid, 4, is_start,
                        {"NNames": rn, "NT": rt}, 3000)
         gr = [f.result() for f in gf]
@@ -55,6 +60,7 @@ def run(pid, tier, seed):
     violations, samples, per_job = [], [], {}
     states = transitions = beh = steps = failed = 0
     classes = 0
+    foreign = 0
     seen = set()
     for r in gr:
         t, s = r["tlc"], r["summary"]
@@ -72,12 +78,16 @@ def run(pid, tier, seed):
             samples.append({"kind": "TLC behaviour (%s): declarations with the predicted observation of the scope" % r["name"],
                             "behaviour": [b[0], {"ev": b[-1]["ev"], "o": {k: b[-1]["o"][k] for k in ("elements", "types", "decls")}}]})
         for f in r["fails"]:
+            part = f["key"].split(":")[1]
+            # read-back of what a declaration was given (name, type, aliasee) is C02's; its place in the scope is C07's
+            if (part not in ("init", "n", "t")) if pid == "C02" else (part == "init"):
+                foreign += 1
+                continue
             if f["key"] in seen:
                 continue
             seen.add(f["key"])
             path = vlib.save_replay(pid, "%s.ndjson" % f["key"].replace(":", "-"), "\n".join(json.dumps(e) for e in f["beh"]) + "\n")
             exp, got = f["expected"], f["got"]
-            part = f["key"].split(":")[1]
             if part in ("elements", "types", "lookup", "select"):
                 detail = "%s: expected %s, library %s" % (part, json.dumps(exp.get(part)), json.dumps(got.get(part)))
             else:
@@ -88,7 +98,7 @@ def run(pid, tier, seed):
             violations.append(("crash", "library crashed replaying a behaviour",
                                vlib.save_replay(pid, "crash-%s.ndjson" % r["name"], r["crash"]["beh"])))
     seenk = set()
-    for (lineno, line, prefix) in tr["rejections"]:
+    for (lineno, line, prefix) in ([] if pid == "C02" else tr["rejections"]):
         try:
             ev = json.loads(line)
         except ValueError:
@@ -113,7 +123,7 @@ def run(pid, tier, seed):
                 "(name alone/overloaded). binding B: random histories over %d names, %d types, two heterogeneous scopes, a "
                 "parameter list, an enumeration and a base list, validated by the trace spec." % (rn, rt),
         "samples": samples, "exhaustive": True, "exhaustive_scope": "per job alphabet and depth", "jobs": per_job,
-        "recorded_events": tr["lines"],
+        "recorded_events": tr["lines"], "failures_attributed_to_other_properties": foreign,
     }
     return {"coverage": coverage, "violations": violations,
             "assumptions": ["each (name,type) pair is used by one declaration kind; names in homogeneous scopes are distinct"]}
